@@ -17,6 +17,9 @@ SAVE_NOTE = ('Trusted: TLC; pickle/json/sha1; the kernel decides which buffered 
 HIST_NOTE = ('Trusted: TLC; structural comparison of values; histories bounded to 3-4 calls over 3-4 task universes; '
              'the universe task types of lv/universe.')
 
+VAL_NOTE = ('Trusted: TLC; sha1 and json.dumps injective on distinct trees; scalars are a fixed pool of typed atoms; grammar bounded '
+            '(depth <= 3, <= 2 elements per collection).')
+
 CHECKS = {
     'C01': ('LabRunAbs C01_Keys/C01_Values/C01_Digest: TLC checks them on LabRun (all DAGs on 3 tasks x request lists x '
             'cache pre-states x backends x worker counts) through the refinement mapping, then every execution of the real '
@@ -30,6 +33,10 @@ CHECKS = {
             'of recorded executions (parent accounting in R2, real run() overlap in R3).', '7 C04'),
     'C05': ('LabRunAbs C05_AtRest (the property\'s second sentence verbatim) at every resting point of the model and of '
             'recorded executions; the at-rest marker is the coordinator\'s own liveness sample.', '7 C05'),
+    'C09': ('TaskValues: every accepted case is run once under a caching Lab sharing one storage with all other cases, types and '
+            'another cache format; cached_tasks is called for every type; TaskValuesObs checks C09_Reconstruct, C09_ListedOnce (exactly '
+            'once, same key, stored result_meta, re-running loads the stored result) and C09_NoForeign; CacheHistoryTrace adds C09_Listing '
+            'after every call of every replayed history.', '7 C09'),
     'C10': ('LabRunAbs C10_* for every subset of failing tasks (exception) and every death pattern the schedules contain, '
             'both continue_on_failure values; model-checked, then monitored on real executions on all three backends.', '7 C10'),
     'C11': ('Safety C11_NoIdleWait / C11_NoSpin (monitor) plus TLC liveness <>Terminated under fairness on LabRun; hangs of '
@@ -38,6 +45,10 @@ CHECKS = {
             'universes; sampled histories are replayed on real Labs (providers x cache formats x serial/fork/spawn; later calls in '
             'fresh interpreters under other hash seeds); CacheHistoryTrace recomputes each call on the map and checks '
             'C06_NoRunOnHit / LoadReturnsStored / MetaPreserved / CachedAfterRun against what was returned and observable.', '7 C06'),
+    'C07': ('TaskValues: TLC checks Deser(Ser(v)) = v (hence key injectivity), idempotent normalisation and type-distinguishing keys '
+            'over the whole bounded grammar (raw trees x 4 task types incl. same-named / prefix-named / subclass types, reserved dict keys) '
+            'and emits every case; the real code computes each case\'s cache_key (also after pickling, rebuilding, reconstruction, and in '
+            'fresh interpreters under other hash seeds); TaskValuesObs checks C07_Deterministic / C07_Distinct (pairwise) / C07_StorageAccepts.', '7 C07'),
     'C08': ('Same machinery, formulas C08_RunExecutesWhatItNeeds / MapEvolution / EntryValues / NothingElseStored (and C09_Listing): '
             'after every call is_cached of every task, cached_tasks per type, a load of every entry and the key count must equal '
             'the map model; cache=None types, Lab(storage=None), LocalStorage and an fsspec-backed storage.', '7 C08'),
@@ -51,6 +62,9 @@ CHECKS = {
             'coordinator location of LabRun; on the code: KeyboardInterrupt injected at every line boundary of serial runs '
             '(exhaustive), sampled boundaries and double interrupts on virtual processes, TLC-placed interrupts, and real '
             'SIGINT (single, double, to the process group) at resting points of real fork/spawn runs.', '7 C14'),
+    'C15': ('TaskValues: TLC checks Norm over the grammar incl. unsupported kinds and non-string keys; every case is constructed with '
+            'the real code: TaskValuesObs checks C15_AcceptReject (TaskError iff Norm rejects), C15_Normalised (observed tree = Norm), '
+            'C15_Frozen, C15_EqHash, C15_Deps and C15_Pickle (copy equal, same key and dependencies, post_init state, no context/results).', '7 C15'),
     'C16': ('LabRunAbs C16_Env: facts recorded inside run() on real serial/fork/spawn runs (pid, parent, thread, visibility of a '
             'parent-mutated global, fresh import) and the filtered context, judged by the monitor; stored entries compared '
             'between two runs under different contexts.', '7 C16'),
@@ -74,13 +88,15 @@ def main():
             'thorough_cmd': f'./check {pid} --tier thorough',
             'evidence_file': f'/verif/evidence/{pid}.json',
             'replay_cmd_template': './check --replay {path}',
-            'engine': 'tlc-save' if pid in ('C12', 'C13') else ('tlc-history' if pid in ('C06', 'C08') else 'tlc-labrun'),
+            'engine': 'tlc-save' if pid in ('C12', 'C13') else ('tlc-history' if pid in ('C06', 'C08') else ('tlc-values' if pid in ('C07', 'C09', 'C15') else 'tlc-labrun')),
             'level_claimed': {'category': 'model_checking', 'text': text, 'design_ref': f'DESIGN.md section {ref}'},
-            'level_note': SAVE_NOTE if pid in ('C12', 'C13') else (HIST_NOTE if pid in ('C06', 'C08') else LABRUN_NOTE),
+            'level_note': SAVE_NOTE if pid in ('C12', 'C13') else (HIST_NOTE if pid in ('C06', 'C08') else (VAL_NOTE if pid in ('C07', 'C09', 'C15') else LABRUN_NOTE)),
             'technique': ('explicit TLA+ spec (SaveProtocol) model-checked with TLC + exhaustive fault/crash injection into the real save, observations judged by the spec (SaveObs)'
                           if pid in ('C12', 'C13') else
                           'explicit TLA+ spec (CacheMap/CacheHistory) explored with TLC; TLC-generated call histories replayed on real Labs and validated call by call against the spec (CacheHistoryTrace)'
                           if pid in ('C06', 'C08') else
+                          'explicit TLA+ spec (TaskValues: grammar + transcribed Norm/Ser/Deser/DepsOf) checked with TLC over the whole bounded grammar; every case replayed on the real code and judged by the observation spec (TaskValuesObs)'
+                          if pid in ('C07', 'C09', 'C15') else
                           'explicit TLA+ spec (LabRunAbs/LabRun) model-checked with TLC + trace validation of real executions against the property-level spec, schedules generated by TLC'),
         })
     m = {
@@ -94,7 +110,9 @@ def main():
                      'kind_free_text': 'TLC 1.8 on SaveProtocol/SaveObs; lv/rigs/savefault.py injects faults and crashes into the real save'},
                     {'name': 'tlc-history', 'path': '/verif/spec/CacheHistory.tla', 'serves_properties': ['C06', 'C08'],
                      'kind_free_text': 'TLC 1.8 on CacheMap/CacheHistory/CacheHistoryTrace; lv/rigs/history.py replays histories on real Labs'},
-                    {'name': 'tlc-labrun', 'path': '/verif/spec/LabRun.tla', 'serves_properties': sorted(p for p in CHECKS if p not in ('C12', 'C13', 'C06', 'C08')),
+                    {'name': 'tlc-values', 'path': '/verif/spec/TaskValues.tla', 'serves_properties': ['C07', 'C09', 'C15'],
+                     'kind_free_text': 'TLC 1.8 on TaskValues/TaskValuesObs; lv/rigs/values.py drives the real code through every case'},
+                    {'name': 'tlc-labrun', 'path': '/verif/spec/LabRun.tla', 'serves_properties': sorted(p for p in CHECKS if p not in ('C12', 'C13', 'C06', 'C08', 'C07', 'C09', 'C15')),
                      'kind_free_text': 'TLC 1.8 on explicit TLA+ specifications; Python rigs drive /repo along TLC behaviours and record traces'}],
         'checks': checks,
         'notes': 'see DESIGN.md; known findings and fixed defects in known_findings.json',
